@@ -1,8 +1,381 @@
-//! C07 harness entry (not implemented yet).
+//! C07: layout21raw GDSII export and re-import (`Library::to_gds`, `Library::from_gds`).
+//!
+//! op "rt":     build a raw library through the public API (shape of the C14 harness), `to_gds`, then
+//!              `from_gds(gds, Some(the library's own Layers))`.
+//!              -> {"gds": G | {"err"} | {"panic"}, "raw": L' | {"err"} | {"panic"} | null}
+//! op "probe":  small public-API probes that tell which variant of `Polygon::contains` the working tree carries.
+//!
+//! Canonical output: LayerKeys are indices into the slot map (insertion order), cell pointers are indices into
+//! the library's cell list, doubles are bit patterns, purposes are probed through `Layer::purpose`/`Layer::num`;
+//! the dates of an exported GDSII library are printed as zeros (they are the time of the call).
+//! (The glue is the one of harness/src/bin/c06.rs op "rt", copied so that the two checks do not share a file.)
+use gds21::*;
 use l21h::{json, Value};
+use layout21raw as raw;
+use raw::utils::Ptr;
+use raw::ShapeTrait;
+use std::collections::HashMap;
+use std::panic::{catch_unwind, AssertUnwindSafe};
 
-fn run(_case: &Value) -> Value {
-    json!({"harness_error": "not implemented"})
+fn hex(b: &[u8]) -> String {
+    let mut s = String::with_capacity(b.len() * 2);
+    for x in b {
+        s.push_str(&format!("{:02x}", x));
+    }
+    s
+}
+// ------------------------------------------------------------------ gds21 -> JSON (dates as zeros)
+fn jpoints(p: &[GdsPoint]) -> Value {
+    let mut v = Vec::with_capacity(p.len() * 2);
+    for q in p {
+        v.push(q.x);
+        v.push(q.y);
+    }
+    json!(v)
+}
+fn jstr(s: &str) -> Value {
+    json!(hex(s.as_bytes()))
+}
+fn jstrans(s: &Option<GdsStrans>) -> Value {
+    match s {
+        None => Value::Null,
+        Some(s) => json!({"r": s.reflected, "am": s.abs_mag, "aa": s.abs_angle,
+            "mag": s.mag.map(|x| x.to_bits()), "angle": s.angle.map(|x| x.to_bits())}),
+    }
+}
+fn jprops(p: &[GdsProperty]) -> Value {
+    json!(p.iter().map(|q| json!([q.attr, hex(q.value.as_bytes())])).collect::<Vec<_>>())
+}
+fn jflags(e: &Option<GdsElemFlags>) -> Value {
+    match e {
+        None => Value::Null,
+        Some(e) => json!([e.0, e.1]),
+    }
+}
+fn jplex(e: &Option<GdsPlex>) -> Value {
+    match e {
+        None => Value::Null,
+        Some(e) => json!(e.0),
+    }
+}
+fn jgelem(e: &GdsElement) -> Value {
+    match e {
+        GdsElement::GdsBoundary(b) => json!({"k": "boundary", "layer": b.layer, "datatype": b.datatype, "xy": jpoints(&b.xy),
+            "elflags": jflags(&b.elflags), "plex": jplex(&b.plex), "props": jprops(&b.properties)}),
+        GdsElement::GdsPath(b) => json!({"k": "path", "layer": b.layer, "datatype": b.datatype, "xy": jpoints(&b.xy),
+            "width": b.width, "path_type": b.path_type, "begin_extn": b.begin_extn, "end_extn": b.end_extn,
+            "elflags": jflags(&b.elflags), "plex": jplex(&b.plex), "props": jprops(&b.properties)}),
+        GdsElement::GdsStructRef(b) => json!({"k": "sref", "name": jstr(&b.name), "xy": [b.xy.x, b.xy.y], "strans": jstrans(&b.strans),
+            "elflags": jflags(&b.elflags), "plex": jplex(&b.plex), "props": jprops(&b.properties)}),
+        GdsElement::GdsArrayRef(b) => json!({"k": "aref", "name": jstr(&b.name), "xy": jpoints(&b.xy), "cols": b.cols, "rows": b.rows,
+            "strans": jstrans(&b.strans),
+            "elflags": jflags(&b.elflags), "plex": jplex(&b.plex), "props": jprops(&b.properties)}),
+        GdsElement::GdsTextElem(b) => json!({"k": "text", "string": jstr(&b.string), "layer": b.layer, "texttype": b.texttype,
+            "xy": [b.xy.x, b.xy.y],
+            "presentation": b.presentation.as_ref().map(|p| vec![p.0, p.1]), "path_type": b.path_type, "width": b.width,
+            "strans": jstrans(&b.strans),
+            "elflags": jflags(&b.elflags), "plex": jplex(&b.plex), "props": jprops(&b.properties)}),
+        GdsElement::GdsNode(b) => json!({"k": "node", "layer": b.layer, "nodetype": b.nodetype, "xy": jpoints(&b.xy),
+            "elflags": jflags(&b.elflags), "plex": jplex(&b.plex), "props": jprops(&b.properties)}),
+        GdsElement::GdsBox(b) => json!({"k": "box", "layer": b.layer, "boxtype": b.boxtype, "xy": jpoints(&b.xy),
+            "elflags": jflags(&b.elflags), "plex": jplex(&b.plex), "props": jprops(&b.properties)}),
+    }
+}
+fn jgds(l: &GdsLibrary) -> Value {
+    let z = vec![0; 12];
+    json!({"name": jstr(&l.name), "version": l.version, "dates": z,
+        "units": [l.units.0.to_bits(), l.units.1.to_bits()],
+        "structs": l.structs.iter().map(|s| json!({"name": jstr(&s.name), "dates": z,
+            "elems": s.elems.iter().map(jgelem).collect::<Vec<_>>()})).collect::<Vec<_>>()})
+}
+
+// ------------------------------------------------------------------ JSON -> raw (shape of the C14 harness)
+fn pt(v: &Value) -> raw::Point {
+    raw::Point::new(v[0].as_i64().expect("x") as isize, v[1].as_i64().expect("y") as isize)
+}
+fn pts(v: &Value) -> Vec<raw::Point> {
+    v.as_array().expect("points").iter().map(pt).collect()
+}
+fn purpose(v: &Value) -> raw::LayerPurpose {
+    use raw::LayerPurpose::*;
+    if let Some(s) = v.as_str() {
+        return match s {
+            "Drawing" => Drawing,
+            "Pin" => Pin,
+            "Label" => Label,
+            "Obstruction" => Obstruction,
+            "Outline" => Outline,
+            _ => panic!("harness: bad purpose"),
+        };
+    }
+    if let Some(k) = v.get("Other") {
+        return Other(k.as_i64().unwrap() as i16);
+    }
+    if let Some(a) = v.get("Named") {
+        return Named(a[0].as_str().unwrap().to_string(), a[1].as_i64().unwrap() as i16);
+    }
+    panic!("harness: bad purpose")
+}
+fn shape(v: &Value) -> raw::Shape {
+    if let Some(r) = v.get("R") {
+        return raw::Shape::Rect(raw::Rect { p0: pt(&r[0]), p1: pt(&r[1]) });
+    }
+    if let Some(g) = v.get("G") {
+        return raw::Shape::Polygon(raw::Polygon { points: pts(g) });
+    }
+    if let Some(p) = v.get("P") {
+        return raw::Shape::Path(raw::Path { points: pts(&p[0]), width: p[1].as_u64().expect("width") as usize });
+    }
+    panic!("harness: bad shape")
+}
+fn build_layers(spec: &Value) -> (raw::Layers, Vec<raw::LayerKey>) {
+    let mut layers = raw::Layers::default();
+    let mut keys = Vec::new();
+    for l in spec.as_array().expect("layers") {
+        let pairs: Vec<(i16, raw::LayerPurpose)> = l["pairs"]
+            .as_array()
+            .unwrap()
+            .iter()
+            .map(|p| (p[0].as_i64().unwrap() as i16, purpose(&p[1])))
+            .collect();
+        let mut layer = raw::Layer::from_pairs(l["num"].as_i64().unwrap() as i16, &pairs).expect("harness: from_pairs");
+        layer.name = l["name"].as_str().map(|s| s.to_string());
+        keys.push(layers.add(layer));
+    }
+    (layers, keys)
+}
+fn key_of(keys: &[raw::LayerKey], v: &Value) -> raw::LayerKey {
+    match v.as_u64() {
+        Some(k) if (k as usize) < keys.len() => keys[k as usize],
+        _ => raw::LayerKey::default(),
+    }
+}
+fn shapemap(keys: &[raw::LayerKey], v: &Value) -> HashMap<raw::LayerKey, Vec<raw::Shape>> {
+    let mut m = HashMap::new();
+    for e in v.as_array().expect("shapemap") {
+        m.insert(key_of(keys, &e[0]), e[1].as_array().unwrap().iter().map(shape).collect());
+    }
+    m
+}
+fn build_lib(spec: &Value) -> raw::Library {
+    let units = match spec["units"].as_str().unwrap() {
+        "Micro" => raw::Units::Micro,
+        "Nano" => raw::Units::Nano,
+        "Angstrom" => raw::Units::Angstrom,
+        "Pico" => raw::Units::Pico,
+        _ => panic!("harness: bad units"),
+    };
+    let mut lib = raw::Library::new(spec["name"].as_str().unwrap(), units);
+    let (layers, keys) = build_layers(&spec["layers"]);
+    lib.layers = Ptr::new(layers);
+    let cspecs = spec["cells"].as_array().expect("cells");
+    let ptrs: Vec<Ptr<raw::Cell>> = cspecs
+        .iter()
+        .map(|c| lib.cells.insert(raw::Cell::new(c["name"].as_str().unwrap())))
+        .collect();
+    for (c, p) in cspecs.iter().zip(ptrs.iter()) {
+        let mut cell = p.write().unwrap();
+        if !c["layout"].is_null() {
+            let l = &c["layout"];
+            cell.layout = Some(raw::Layout {
+                name: l["name"].as_str().unwrap().to_string(),
+                insts: l["insts"]
+                    .as_array()
+                    .unwrap()
+                    .iter()
+                    .map(|i| raw::Instance {
+                        inst_name: i["name"].as_str().unwrap().to_string(),
+                        cell: ptrs[i["cell"].as_u64().unwrap() as usize].clone(),
+                        loc: pt(&i["loc"]),
+                        reflect_vert: i["reflect"].as_bool().unwrap(),
+                        angle: i["angle"].as_u64().map(f64::from_bits),
+                    })
+                    .collect(),
+                elems: l["elems"]
+                    .as_array()
+                    .unwrap()
+                    .iter()
+                    .map(|e| raw::Element {
+                        net: e["net"].as_str().map(|s| s.to_string()),
+                        layer: key_of(&keys, &e["layer"]),
+                        purpose: purpose(&e["purpose"]),
+                        inner: shape(&e["shape"]),
+                    })
+                    .collect(),
+                annotations: l["annots"]
+                    .as_array()
+                    .unwrap()
+                    .iter()
+                    .map(|a| raw::TextElement { string: a[0].as_str().unwrap().to_string(), loc: pt(&a[1]) })
+                    .collect(),
+            });
+        }
+        if !c["abs"].is_null() {
+            let a = &c["abs"];
+            cell.abs = Some(raw::Abstract {
+                name: a["name"].as_str().unwrap().to_string(),
+                outline: raw::Polygon { points: pts(&a["outline"]) },
+                ports: a["ports"]
+                    .as_array()
+                    .unwrap()
+                    .iter()
+                    .map(|p| raw::AbstractPort {
+                        net: p["net"].as_str().unwrap().to_string(),
+                        shapes: shapemap(&keys, &p["shapes"]),
+                    })
+                    .collect(),
+                blockages: shapemap(&keys, &a["blockages"]),
+            });
+        }
+    }
+    lib
+}
+
+// ------------------------------------------------------------------ raw -> JSON
+fn jpt(p: &raw::Point) -> Value {
+    json!([p.x as i64, p.y as i64])
+}
+fn jpurpose(p: &raw::LayerPurpose) -> Value {
+    use raw::LayerPurpose::*;
+    match p {
+        Drawing => json!("Drawing"),
+        Pin => json!("Pin"),
+        Label => json!("Label"),
+        Obstruction => json!("Obstruction"),
+        Outline => json!("Outline"),
+        Named(s, k) => json!({"Named": [s, k]}),
+        Other(k) => json!({ "Other": k }),
+    }
+}
+fn jshape(s: &raw::Shape) -> Value {
+    match s {
+        raw::Shape::Rect(r) => json!({"R": [jpt(&r.p0), jpt(&r.p1)]}),
+        raw::Shape::Polygon(p) => json!({"G": p.points.iter().map(jpt).collect::<Vec<_>>()}),
+        raw::Shape::Path(p) => json!({"P": [p.points.iter().map(jpt).collect::<Vec<_>>(), p.width as u64]}),
+    }
+}
+fn jelem(kidx: &HashMap<raw::LayerKey, usize>, nkeys: usize, e: &raw::Element) -> Value {
+    json!({"net": e.net, "layer": *kidx.get(&e.layer).unwrap_or(&nkeys),
+           "purpose": jpurpose(&e.purpose), "shape": jshape(&e.inner)})
+}
+fn key_index(layers: &raw::Layers) -> HashMap<raw::LayerKey, usize> {
+    let mut kidx = HashMap::new();
+    for (i, (k, _)) in layers.slots.iter().enumerate() {
+        kidx.insert(k, i);
+    }
+    kidx
+}
+fn jlayers(layers: &raw::Layers, probe: &[i16]) -> Value {
+    let mut jl = Vec::new();
+    for (k, l) in layers.slots.iter() {
+        let mut pairs = Vec::new();
+        for n in probe {
+            if let Some(p) = l.purpose(*n) {
+                pairs.push(json!([n, jpurpose(p), l.num(p)]));
+            }
+        }
+        jl.push(json!({"num": l.layernum, "name": l.name, "pairs": pairs, "keynum": layers.keynum(l.layernum).map(|k2| k2 == k)}));
+    }
+    Value::Array(jl)
+}
+fn jlib(lib: &raw::Library, probe: &[i16]) -> Value {
+    let layers = lib.layers.read().unwrap();
+    let kidx = key_index(&layers);
+    let nkeys = kidx.len();
+    let cidx = |p: &Ptr<raw::Cell>| -> Value {
+        match lib.cells.iter().position(|q| q == p) {
+            Some(i) => json!(i),
+            None => Value::Null,
+        }
+    };
+    let mut jcells = Vec::new();
+    for c in lib.cells.iter() {
+        let c = c.read().unwrap();
+        let layout = match &c.layout {
+            None => Value::Null,
+            Some(l) => json!({
+                "name": l.name,
+                "insts": l.insts.iter().map(|i| json!({
+                    "name": i.inst_name, "cell": cidx(&i.cell), "loc": jpt(&i.loc),
+                    "reflect": i.reflect_vert, "angle": i.angle.map(|a| a.to_bits())})).collect::<Vec<_>>(),
+                "elems": l.elems.iter().map(|e| jelem(&kidx, nkeys, e)).collect::<Vec<_>>(),
+                "annots": l.annotations.iter().map(|a| json!([a.string, jpt(&a.loc)])).collect::<Vec<_>>(),
+            }),
+        };
+        // abstracts never come out of the GDSII importer; only their presence is reported
+        jcells.push(json!({"name": c.name, "layout": layout, "abs": c.abs.is_some()}));
+    }
+    let units = match lib.units {
+        raw::Units::Micro => "Micro",
+        raw::Units::Nano => "Nano",
+        raw::Units::Angstrom => "Angstrom",
+        raw::Units::Pico => "Pico",
+    };
+    json!({"name": lib.name, "units": units, "layers": jlayers(&layers, probe), "cells": jcells})
+}
+
+// ------------------------------------------------------------------ driver
+fn panic_msg(p: Box<dyn std::any::Any + Send>) -> String {
+    if let Some(s) = p.downcast_ref::<&str>() {
+        s.to_string()
+    } else if let Some(s) = p.downcast_ref::<String>() {
+        s.clone()
+    } else {
+        "panic".to_string()
+    }
+}
+fn staged<T>(f: impl FnOnce() -> raw::LayoutResult<T>) -> Result<T, Value> {
+    match catch_unwind(AssertUnwindSafe(f)) {
+        Ok(Ok(v)) => Ok(v),
+        Ok(Err(e)) => Err(json!({ "err": format!("{:?}", e).chars().take(200).collect::<String>() })),
+        Err(p) => Err(json!({ "panic": panic_msg(p).chars().take(200).collect::<String>() })),
+    }
+}
+fn probes(case: &Value) -> Vec<i16> {
+    let mut v: Vec<i16> = (-1..=12).collect();
+    if let Some(a) = case["probe"].as_array() {
+        for x in a {
+            let k = x.as_i64().unwrap() as i16;
+            if !v.contains(&k) {
+                v.push(k);
+            }
+        }
+    }
+    v.sort();
+    v
+}
+fn run(case: &Value) -> Value {
+    let probe = probes(case);
+    match case["op"].as_str().unwrap_or("") {
+        "rt" => {
+            let lib = build_lib(&case["lib"]);
+            let gds = match staged(|| lib.to_gds()) {
+                Ok(g) => g,
+                Err(e) => return json!({"gds": e, "raw": Value::Null}),
+            };
+            let jg = jgds(&gds);
+            let layers = Some(Ptr::clone(&lib.layers));
+            match staged(|| raw::Library::from_gds(&gds, layers)) {
+                Ok(l2) => json!({"gds": jg, "raw": jlib(&l2, &probe)}),
+                Err(e) => json!({"gds": jg, "raw": e}),
+            }
+        }
+        "probe" => {
+            // Polygon::contains: the triangle (0,0),(1,3),(1,0) does not contain (0,1); the code as found says it does
+            let tri = raw::Polygon { points: vec![raw::Point::new(0, 0), raw::Point::new(1, 3), raw::Point::new(1, 0)] };
+            let c1 = tri.contains(&raw::Point::new(0, 1));
+            let pent = raw::Polygon {
+                points: vec![raw::Point::new(0, 0), raw::Point::new(5, 0), raw::Point::new(5, 4), raw::Point::new(0, 4), raw::Point::new(1, 2)],
+            };
+            let c2 = pent.contains(&raw::Point::new(0, 2));
+            // Transform::from_instance(loc(10,20), reflect, 90) maps (3,1) to (11,23) when it is the composition
+            let t = raw::Transform::from_instance(&raw::Point::new(10, 20), true, Some(90.0));
+            let q = raw::Point::new(3, 1).transform(&t);
+            json!({"contains_fixed": !c1 && !c2, "from_instance_fixed": q.x == 11 && q.y == 23,
+                   "rad90": 90f64.to_radians().to_bits()})
+        }
+        _ => json!({"harness_error": "bad op"}),
+    }
 }
 
 fn main() {
